@@ -86,6 +86,8 @@ pub struct Pipe {
     pub reset_reported: bool,
     pub stop: Option<u64>,
     pub stop_delivered: bool,
+    /// data writes by the h3 end that were refused with StreamTerminated because of the peer's STOP_SENDING
+    pub stop_refusals: u32,
     /// bytes the writer may still hand over
     pub credit: u64,
     pub writer_blocked: bool,
@@ -136,6 +138,9 @@ pub struct EndState {
     /// how many more streams this end may open, per direction
     pub stream_credit: [u64; 2],
     pub open_blocked: [bool; 2],
+    /// the peer never grants this end more streams than it started with (a legal peer: RFC 9114 6.2 only asks for three
+    /// unidirectional streams); no GrantStream move is ever enabled
+    pub grants_frozen: bool,
     pub open_wakers: [Vec<Waker>; 2],
     /// streams announced by the peer and not yet accepted, in id order
     pub accept_q: [VecDeque<u64>; 2],
@@ -350,7 +355,7 @@ impl Net {
         for side in [Side::Client, Side::Server] {
             let e = &g.ends[side.idx()];
             for dir in [Dir::Bidi, Dir::Uni] {
-                if e.open_blocked[dir as usize] && e.stream_credit[dir as usize] == 0 && !e.dead() {
+                if e.open_blocked[dir as usize] && e.stream_credit[dir as usize] == 0 && !e.dead() && !e.grants_frozen {
                     out.push(Move::GrantStream { side, dir });
                 }
             }
@@ -673,6 +678,7 @@ impl SimSend {
         }
         let p = g.pipes.get_mut(&(self.id, self.side)).expect("pipe");
         if p.stop_delivered {
+            p.stop_refusals += 1;
             return Poll::Ready(Err(StreamErrorIncoming::StreamTerminated { error_code: p.stop.unwrap() }));
         }
         if p.fin_issued || p.reset.is_some() {
@@ -743,7 +749,8 @@ impl quic::SendStream<Bytes> for SimSend {
         let step = g.step;
         let p = g.pipes.get_mut(&(self.id, self.side)).expect("pipe");
         if p.stop_delivered {
-            return Poll::Ready(Err(StreamErrorIncoming::Unknown(Box::new(SimError("finish: stopped")))));
+            // quinn 0.11 SendStream::finish: "Err(FinishError::Stopped(_)) => Ok(())" - harmless, no FIN goes out
+            return Poll::Ready(Ok(()));
         }
         if p.fin_issued || p.reset.is_some() {
             return Poll::Ready(Err(StreamErrorIncoming::Unknown(Box::new(SimError("finish: closed stream")))));
